@@ -416,4 +416,46 @@ theorem loadRun_cut_then {C : Codec} (hC : C.Good) (es : List (Text × Text)) (h
       · rw [List.take_append_of_le_length (by omega), heq]
         simp
 
+/-! ### arbitrary bytes in front of complete records -/
+
+theorem first_nl_split (g : Bytes) (h : 10 ∈ g) : ∃ l g', g = l ++ 10 :: g' ∧ 10 ∉ l := by
+  induction g with
+  | nil => simp at h
+  | cons b g ih =>
+    by_cases hb : b = 10
+    · exact ⟨[], g, by simp [hb], by simp⟩
+    · have : 10 ∈ g := by
+        simp only [List.mem_cons] at h
+        rcases h with h | h
+        · exact absurd h.symm hb
+        · exact h
+      obtain ⟨l, g', hg, hl⟩ := ih this
+      refine ⟨b :: l, g', by simp [hg], ?_⟩
+      simp only [List.mem_cons, not_or]
+      exact ⟨fun e => hb e.symm, hl⟩
+
+/-- whatever bytes `g` a file starts with: after them the loop is in some state and inside some
+    unterminated line `q` -/
+theorem loadRun_garbage (C : Codec) (g : Bytes) : ∀ (st : LoadSt),
+    ∃ (S L : List Text) (q : Bytes), 10 ∉ q ∧
+      ∀ rest, loadRun C st (g ++ rest) = loadRun C ⟨S, L⟩ (q ++ rest) := by
+  induction hn : g.length using Nat.strongRecOn generalizing g with
+  | _ n ih =>
+    intro st
+    by_cases h : 10 ∈ g
+    · obtain ⟨l, g', hg, hl⟩ := first_nl_split g h
+      have hlen : g'.length < n := by rw [← hn, hg]; simp; omega
+      obtain ⟨S, L, q, hq, hrun⟩ := ih g'.length hlen g' rfl (loadStep C st (l ++ [10]))
+      refine ⟨S, L, q, hq, fun rest => ?_⟩
+      rw [hg, List.append_assoc, List.cons_append, loadRun_line C st l hl, hrun]
+    · exact ⟨st.strings, st.lines, g, h, fun _ => rfl⟩
+
+/-- RECOVERY FROM ANYTHING: records appended after arbitrary file content are all read back -/
+theorem loadRun_garbage_then {C : Codec} (hC : C.Good) (g : Bytes) (es' : List (Text × Text))
+    (hts : TsOk es') (st : LoadSt) :
+    ∃ junk : List Text, (loadRun C st (g ++ stores C es')).add = junk ++ es'.map (·.2) := by
+  obtain ⟨S, L, q, hq, hrun⟩ := loadRun_garbage C g st
+  obtain ⟨x, _, hx⟩ := loadRun_torn_then hC S L q hq es' hts
+  exact ⟨S ++ x, by rw [hrun, hx]⟩
+
 end Ptk.C13
